@@ -310,6 +310,9 @@ theorem compute_refG_aux (N : Nat) : ∀ node : Node, sizeOf node < N → NodeRe
     · -- if
       rename_i cond t f
       rw [desugar] at hd
+      by_cases hcv : changesVariable cond = true
+      · rw [if_pos hcv] at hd; cases hd
+      rw [if_neg hcv] at hd
       rw [namesOkA] at hn
       simp only [Bool.and_eq_true] at hn
       cases ha : desugarO t with
@@ -361,6 +364,9 @@ theorem compute_refG_aux (N : Nat) : ∀ node : Node, sizeOf node < N → NodeRe
     · -- while
       rename_i cond b
       rw [desugar] at hd
+      by_cases hcv : changesVariable cond = true
+      · rw [if_pos hcv] at hd; cases hd
+      rw [if_neg hcv] at hd
       rw [namesOkA] at hn
       cases hdb : desugar b with
       | none => simp [hdb] at hd
@@ -379,6 +385,9 @@ theorem compute_refG_aux (N : Nat) : ∀ node : Node, sizeOf node < N → NodeRe
     · -- do-while
       rename_i cond b
       rw [desugar] at hd
+      by_cases hcv : changesVariable cond = true
+      · rw [if_pos hcv] at hd; cases hd
+      rw [if_neg hcv] at hd
       rw [namesOkA] at hn
       cases hdb : desugar b with
       | none => simp [hdb] at hd
@@ -559,7 +568,7 @@ theorem while_body_cast_transparent :
       Analysis.compute q idx dg (.while_ (.id "c") (.assign "=" (.id "x") (.cast (.cast (.id "y")))))
         = Analysis.compute q idx dg (.while_ (.id "c") (.assign "=" (.id "x") (.id "y"))) := by
   refine ⟨?_, by decide, ?_⟩
-  · simp [desugar, Node.rmCast]
+  · simp [desugar, Node.rmCast, changesVariable]
   · intro q idx dg
     rw [Analysis.compute, (double_cast_transparent).2 q idx dg, ← Analysis.compute]
 
